@@ -254,7 +254,7 @@ fn keywords(all: bool) -> Vec<Prog> {
 
 fn labels() -> Vec<Prog> {
     let mut out = vec![];
-    let weird = ["é", "名", "😀", "a b", "a-b", "1a", "", "\"", "\\", "'", "a\nb", "a\"b", "a\\", "\\\"", "{", "}", "a.b", "a::b", "r#a", "#", "日本語_x"];
+    let weird = ["é", "名", "😀", "a b", "a-b", "1a", "0", "2", "007", "4294967295", "4294967296", "", "\"", "\\", "'", "a\nb", "a\"b", "a\\", "\\\"", "{", "}", "a.b", "a::b", "r#a", "#", "日本語_x"];
     for w in weird {
         out.push(prog(vec![("d", rec(vec![(w, nat())]))], None));
         out.push(prog(vec![("d", var(vec![(w, p(Prim::Null)), ("o", nat())]))], None));
